@@ -525,9 +525,18 @@ class Socket:
         self.close_calls = 0
         self.pending_writers = []
         self.send_limit = 65536     # bytes one send() accepts (a nearly full socket buffer accepts fewer)
+        self.timeout = None         # socket.settimeout()
+        self.slow_write_at = None   # 1-based index of a write that the (slowly reading) peer takes `slow_delay` seconds to accept
+        self.slow_delay = 2.5
 
     def recv(self, n):
-        SCHED.park(("recv",), cond=lambda: self.inbound or self.in_eof or self.closed)
+        if self.timeout is not None:
+            if SCHED.park(("recv",), cond=lambda: self.inbound or self.in_eof or self.closed,
+                          deadline=round(SCHED.clock + self.timeout, 6)) and not (self.inbound or self.in_eof or self.closed):
+                SCHED.event("recv-timeout", SCHED.me().name)
+                raise TimeoutError("timed out")
+        else:
+            SCHED.park(("recv",), cond=lambda: self.inbound or self.in_eof or self.closed)
         if self.closed:
             SCHED.event("recv-on-closed", SCHED.me().name)
             raise OSError(9, "Bad file descriptor")
@@ -544,6 +553,17 @@ class Socket:
         SCHED.event("recv-reset")
         raise ConnectionResetError(104, "Connection reset by peer")
 
+    def _slow_peer(self):
+        """the peer reads slowly: the next write takes `slow_delay` seconds to be accepted — longer than a socket timeout, if
+        one was set on this object, in which case the operation fails with `socket.timeout` (an OSError)"""
+        if self.slow_write_at is not None and self.nwrites + 1 == self.slow_write_at:
+            if self.timeout is not None and self.timeout < self.slow_delay:
+                SCHED.park(("send-wait",), cond=lambda: False, deadline=round(SCHED.clock + self.timeout, 6))
+                self.nwrites += 1
+                SCHED.event("send-timeout", SCHED.me().name)
+                raise TimeoutError("timed out")
+            SCHED.park(("send-wait",), cond=lambda: False, deadline=round(SCHED.clock + self.slow_delay, 6))
+
     def _announce(self, data):
         """park at the write; a write performed while another thread has announced its own (and, in reality, may be
         in the middle of it: a large line towards a slow peer) is reported — the bytes of the two could interleave."""
@@ -557,6 +577,7 @@ class Socket:
             SCHED.event("concurrent-send", me, tuple(self.pending_writers))
 
     def sendall(self, data):
+        self._slow_peer()
         self._announce(data)
         self.nwrites += 1
         if self.closed:
@@ -570,6 +591,7 @@ class Socket:
 
     def send(self, data):
         """a single write(2): may be partial (at most 64 KiB are taken per call, like a full socket buffer)"""
+        self._slow_peer()
         self._announce(data)
         self.nwrites += 1
         if self.closed:
@@ -588,7 +610,14 @@ class Socket:
         SCHED.event("socket-close")
 
     def settimeout(self, t):
-        pass
+        """socket timeouts apply to EVERY blocking operation of the object: recv, send and the whole of sendall"""
+        self.timeout = t
+
+    def gettimeout(self):
+        return self.timeout
+
+    def setblocking(self, flag):
+        self.timeout = None if flag else 0.0
 
 
 class TimeShim:
